@@ -531,6 +531,10 @@ def sample_inputs(universe, caps, seed):
                 i += 1
 
 
+# names of the members of a requested flat object (composite sources are usually named after the field they are built on)
+MEMBER_NAMES = ["geo.src", "geo.dest", "source.ip", "destination.ip", "host.name", "user.name", "a.b.c", "b.c", "c", "date", "a", "b", "@timestamp", "event.dataset"]
+
+
 def _rand_scalar(rnd, ids):
     x = rnd.random()
     if x < 0.35:
@@ -625,6 +629,19 @@ def random_inputs(seed, n):
                 rnd.shuffle(top)
             unit = rnd.choice(["docs", "docs", "ops", "MB"])
             res.append({"kind": "bulk", "tree": jl.obj(*top), "unit": unit, "size": nitems if unit == "docs" else 7})
+        elif k == 6:  # composite aggregation response: after_key members named after fields (dots), any scalar as value
+            names = rnd.sample(MEMBER_NAMES, rnd.randint(0, 4))
+            after = jl.obj(*[(nm, _rand_scalar(rnd, [1, 2, 3, 4])) for nm in names]) if rnd.random() < 0.9 else None
+            path = rnd.choice([["c"], ["n", "c"], ["by_origin"]])
+            comp = jl.obj(("after_key", after), ("buckets", jl.arr(*[jl.obj(("key", jl.obj(*[(nm, jl.sc_str(1)) for nm in names])), ("doc_count", jl.sc_num(2))) for _ in range(rnd.randint(0, 2))])))
+            aggs = jl.obj((path[0], comp)) if len(path) == 1 else jl.obj((path[0], jl.obj(("doc_count", jl.sc_num(9)), (path[1], comp))))
+            pit = rnd.random() < 0.3
+            top = [("took", jl.sc_num(3)), ("timed_out", jl.sc_bool(False)), ("hits", jl.obj(("total", jl.obj(("value", jl.sc_num(12)), ("relation", jl.sc_known("eq")))), ("hits", jl.arr()))), ("aggregations", aggs)]
+            if pit and rnd.random() < 0.9:
+                top.insert(0, ("pit_id", jl.sc_str("pit")))
+            if rnd.random() < 0.3:
+                rnd.shuffle(top)
+            res.append({"kind": "ca", "tree": jl.obj(*top), "pit": pit, "ht": ABSENT if rnd.random() < 0.6 else jl.sc_num(12), "path": path})
         elif k < 8:  # one search response for the extractor
             nh = rnd.choice([0, 1, 2, 3, 5])
             with_sort = rnd.random() < 0.85
@@ -752,7 +769,9 @@ def run(ctx, out):
         "tokenising JSON text is ijson's / re's / json's job: the specification starts at the (prefix, event, value) stream and at the "
         "lexical facts `]` inside a string, whitespace before a colon, raw occurrence of \"sort\"; that Events(tree) is ijson's stream is "
         "validated on every case",
-        "object keys contain no '.' and requested paths no 'item' segment (parse() addresses members by dotted prefix)",
+        "member names INSIDE a requested flat object (after_key, objects=) may contain dots, also several with the same last component; "
+        "keys on the way to a requested path contain no '.' and requested paths no 'item' segment: ijson's prefix does not escape dots, "
+        "so {\"hits.total\": 1} and {\"hits\": {\"total\": 1}} are the same prefix to parse() - an ambiguity of its interface, excluded",
         "bulk: Failed(item) = status > 299 or _shards.failed > 0 (the predicate of BOTH code paths); Elasticsearch sets the top-level "
         "`errors` only for items that carry an `error`; success-count None is accepted on the fast path for units other than docs (documented)",
         "numbers are compared by value (ijson yields Decimal for non-integers, json.loads float)",
